@@ -186,6 +186,27 @@ def Outcome.isFailed : Outcome → Bool
   | .ok _ => false
   | .failed _ => true
 
+/-- the summary objects of one addon invocation, in output order (what `executeAddons` appends to
+    `ctuInfo` / reports as internal `ctuinfo` messages): those in front of the first failing conversion -/
+def summaryObjs (o : Opts) : List ObjLine → List ObjLine
+  | [] => []
+  | ob :: r =>
+    if has "summary" ob.fields then ob :: summaryObjs o r
+    else match convert o ob with
+      | .throw => []
+      | _ => summaryObjs o r
+
+def summaries (o : Opts) (lines : List Line) : List ObjLine :=
+  if o.exitcode ≠ 0 then []
+  else match validate lines with
+    | none => []
+    | some objs => summaryObjs o objs
+
+/-- the ctu-info handed to whole-program analysis for one file: the summaries of ALL addons, in
+    addon order.  `outs` = the outputs of the addons that run in the per-file phase. -/
+def ctuInfo (o : Opts) (outs : List (List Line)) : List ObjLine :=
+  outs.flatMap (summaries o)
+
 /-- what the duplicate filters of the loggers compare: the rendered text is determined by these -/
 def Finding.key (f : Finding) : Str × Sev × Str × List Loc := (f.id, f.sev, f.msg, f.locs)
 
